@@ -211,6 +211,18 @@ impl Profile for StoredHandles {
             }
             gen.definitions().keys().filter(|k| k.contains("Remote")).cloned().collect()
         });
+        // ... and the schema itself is the same document for every parameterisation, whichever is
+        // generated first in the process
+        static ROOTS: std::sync::OnceLock<Vec<(String, String)>> = std::sync::OnceLock::new();
+        let roots = ROOTS.get_or_init(|| rt::registry::all().into_iter().map(|(k, f)| (k.clone(), (f.schema_root)())).collect());
+        if let Some((k0, r0)) = roots.first() {
+            for (k, r) in roots.iter().skip(1) {
+                if r != r0 {
+                    out.push(Finding::new("C20", "c20.schema_differs", 0, format!("schema of Remote<{k}> differs from the schema of Remote<{k0}>: {} vs {}", r.chars().take(300).collect::<String>(), r0.chars().take(300).collect::<String>())));
+                    break;
+                }
+            }
+        }
         if defs.len() != 1 || defs[0] != "Remote" {
             out.push(Finding::new("C20", "c20.schema_defs", 0, format!("a schema holding handles of {} parameterisations defines {:?} instead of one `Remote`", names.len(), defs)));
         }
